@@ -412,8 +412,9 @@ func verifLemmaMaxBodyTight(c *channelInstance, m *Message, chunkSize int, chunk
 //@   assigns nothing
 //@   ensures [C20:fresh] len(chunks) >= 2 ==> arr(result0) == 0 || fresh(result0)
 //@   ensures [C20:single] len(chunks) == 1 ==> sameslice(result0, chunks[0].Data)
+//@   canary ensures [C20:canary-always-fresh] fresh(result0)
 //@   loop 0 invariant -1 <= rangeindex && rangeindex < len(chunks) && len(chunks) >= 2
-//@   loop 0 invariant arr(b) == 0 || fresh(b)
+//@   loop 0 invariant [C20:fresh-buffer] arr(b) == 0 || fresh(b)
 //@   loop 0 decreases len(chunks) - rangeindex
 
 // the table of incomplete messages: lists of decoded chunks
@@ -490,7 +491,7 @@ func verifLemmaMaxBodyTight(c *channelInstance, m *Message, chunkSize int, chunk
 //@   loop 0 invariant [sum] len(b) == sumData(chunks, rangeindex+1)
 //@   loop 0 invariant rangeindex >= 0 ==> seqnr == chunks[rangeindex].MessageHeader.SequenceHeader.SequenceNumber
 //@   loop 0 invariant rangeindex == -1 ==> seqnr == 0
-//@   loop 0 invariant arr(b) == 0 || fresh(b)
+//@   loop 0 invariant [C20:fresh-buffer] arr(b) == 0 || fresh(b)
 //@   loop 0 decreases len(chunks) - rangeindex
 
 // ---------------------------------------------------------------------------
